@@ -89,7 +89,11 @@ func (s *Snapshot) Aggregate(similar Similarity) *Aggregated {
 		if r.Signature.less(&l.Signature) {
 			return false
 		}
-		return len(r.IDs) > len(l.IDs)
+		if len(r.IDs) != len(l.IDs) {
+			return len(r.IDs) > len(l.IDs)
+		}
+		// Last resort, so the order never depends on the map iteration order.
+		return l.IDs[0] < r.IDs[0]
 	})
 	return &Aggregated{
 		Snapshot: s,
